@@ -13,7 +13,7 @@ use crate::json::J;
 use crate::model::Block;
 use crate::ops::Op;
 use crate::rng::Rng;
-use crate::sched::{RunCfg, RunOut, Scen, Strategy, TOp, run_once};
+use crate::sched::{RunCache, RunCfg, RunOut, Scen, Strategy, TOp, run_once};
 use crate::{Args, Report};
 
 pub const FAMILIES: &[&str] = &[
@@ -402,12 +402,13 @@ pub fn run(args: &Args) -> Report {
             continue;
         };
         let n = sc.progs.len();
+        let mut cache = RunCache::default();
         if rep.samples.len() < 3 {
             rep.samples.push(scen_json(&sc));
         }
         // (1) baseline run: learn the gate counts (victim 0 never stalls)
         let base = Strategy::Walk { seed: 0 };
-        let out0 = run_once(&sc, &Strategy::Stall { victim: 0, k: u64::MAX, order_rot: 0, burst: 0 }, &rc);
+        let out0 = run_once(&sc, &Strategy::Stall { victim: 0, k: u64::MAX, order_rot: 0, burst: 0 }, &rc, &mut cache);
         absorb(&mut rep, &mut acc, prop, &sc, &base, crash_every, &out0);
         if out0.harness_error.is_some() {
             continue;
@@ -423,7 +424,7 @@ pub fn run(args: &Args) -> Report {
                     break;
                 }
                 let st = Strategy::Solo { seed: wseed.wrapping_add((j / 97) as u64), p: *p, rot: j % n };
-                let out = run_once(&sc, &st, &rc);
+                let out = run_once(&sc, &st, &rc, &mut cache);
                 absorb(&mut rep, &mut acc, prop, &sc, &st, crash_every, &out);
             }
             continue;
@@ -438,7 +439,7 @@ pub fn run(args: &Args) -> Report {
                     break 'sweep;
                 }
                 let st = Strategy::Stall { victim, k, order_rot: (k as usize) % 2, burst: 0 };
-                let out = run_once(&sc, &st, &rc);
+                let out = run_once(&sc, &st, &rc, &mut cache);
                 let reached = out.per_thread_gates.get(victim).copied().unwrap_or(0) >= k;
                 absorb(&mut rep, &mut acc, prop, &sc, &st, crash_every, &out);
                 if !reached || out.harness_error.is_some() || k > 3000 {
@@ -461,7 +462,7 @@ pub fn run(args: &Args) -> Report {
                 1 => Strategy::Walk { seed: srng.next() },
                 _ => Strategy::Pct { seed: srng.next(), d: 1 + srng.below(3), est },
             };
-            let out = run_once(&sc, &st, &rc);
+            let out = run_once(&sc, &st, &rc, &mut cache);
             absorb(&mut rep, &mut acc, prop, &sc, &st, crash_every, &out);
         }
     }
@@ -499,7 +500,8 @@ pub fn replay(j: &J) -> Report {
         return rep;
     };
     let rc = RunCfg { crash_every, step_budget: 20_000, final_check: true };
-    let out = run_once(&sc, &st, &rc);
+    let mut cache = RunCache::default();
+    let out = run_once(&sc, &st, &rc, &mut cache);
     let mut acc = Acc {
         runs: 0,
         gates: 0,
